@@ -199,7 +199,12 @@ theorem startApp_balS (cid : Nat) (blocked : List Nat) (a : App) (s : State)
   split
   · rename_i hh
     simp only [hh, Bool.true_eq_false, and_false, if_false]
-    rw [bindAll_aevents]; exact hF
+    have e1 := bindAll_aevents cid a blocked a.listen s
+    generalize bindAll cid a blocked a.listen s = r at e1
+    obtain ⟨s', b⟩ := r
+    cases b with
+    | true => show BalS s'.aevents _ _ _; simp only at e1; rw [e1]; exact hF
+    | false => show BalS s'.aevents _ _ _; simp only at e1; rw [e1]; exact hF
   · rename_i hh
     have hh' : a.isHttp = false := by simpa using hh
     split
